@@ -15,7 +15,7 @@
 
    Obligations:
      * every lookup / readdirplus entry returns the file's one number (learned at first sight);
-     * forget returns nothing; getattr succeeds iff the count is positive at its linearisation;
+     * forget returns nothing; getattr succeeds if the count is positive at its linearisation;
      * at quiescence (all calls returned): Probe refcount = refs (entry present iff refs > 0),
        Probe getattr succeeds iff refs > 0 (number usable until forgotten), Probe drain needs
        exactly refs forget(1) calls until EBADF;
@@ -59,12 +59,14 @@ Call == /\ Ev("Call")
         /\ l' = l + 1 /\ UNCHANGED <<refs, num, ph>>
 
 \* silent: the next atomic action of t's operation takes effect
+\* (getattr in flight: C09 only demands that the number is usable while referenced; that it stops
+\*  resolving at count 0 is C08's obligation, so at refs = 0 either outcome is accepted here)
 Lin(t) == /\ pend[t].st = "inv"
           /\ pend[t].todo # <<>>
           /\ LET a == Head(pend[t].todo) IN
              /\ refs' = Apply(refs, a)
-             /\ pend' = [pend EXCEPT ![t].todo = Tail(@),
-                                     ![t].val = IF a.a = "get" THEN (IF RefsUsable(refs) THEN "ok" ELSE "ebadf") ELSE @]
+             /\ \E v \in (IF a.a # "get" THEN {pend[t].val} ELSE IF RefsUsable(refs) THEN {"ok"} ELSE {"ok", "ebadf"}) :
+                  pend' = [pend EXCEPT ![t].todo = Tail(@), ![t].val = v]
           /\ UNCHANGED <<l, num, ph>>
 
 Ret == /\ Ev("Ret")
